@@ -69,10 +69,15 @@ Lemma release_config : nochecks_of CRelease = true /\
 Proof. split; [reflexivity|]. intros []; vm_compute; split; reflexivity. Qed.
 Lemma base_mode_wrapv : m_wrapv base_mode = true.
 Proof. reflexivity. Qed.
-(* every compiler entry of the GNU family passes -fwrapv in its effective base flags (scraped; an override of
-   cflags_base in one entry - clang's, hence zig cc's - makes this false and with it base_mode_wrapv) *)
-Lemma every_gnu_compiler_wraps : forallb (fun b => b) gnu_family_base_has_fwrapv = true /\ m_wrapv base_mode = true.
+(* every entry of compilers_flags deriving from gcc passes -fwrapv in its effective base flags (scraped; an override
+   of cflags_base in one entry - clang's, hence zig cc's - makes this false and with it base_mode_wrapv) *)
+Lemma gcc_derived_entries_wrap : forallb (fun b => b) gcc_derived_base_has_fwrapv = true /\ m_wrapv base_mode = true.
 Proof. split; reflexivity. Qed.
+(* full statement for the remaining entry a C compiler can be selected through: a GNU C compiler named `cc` wraps too.
+   False today: compilers_flags.cc has cflags_base = "" and nothing adds the flag (`nelua --cc cc --verbose`) *)
+Definition generic_cc_wraps_full : Prop := generic_cc_wraps = true.
+Lemma generic_cc_wraps_refuted : ~ generic_cc_wraps_full.
+Proof. unfold generic_cc_wraps_full. discriminate. Qed.
 
 (* plain + - * and unary - never execute UB in the dialect the base flags select ... *)
 Lemma arith_result_base t r : arith_result base_mode t r <> None.
